@@ -194,7 +194,42 @@ func TestC04(t *testing.T) {
 				maxC3 = n
 			}
 		}
+		// hostile: a contract receive for a send the contract already received, regenerated with the
+		// node's own supervisor if it lets us, and gossiped
+		replay := func() {
+			l, err := sim.Scan(h.A)
+			if err != nil {
+				return
+			}
+			var cands []*nom.AccountBlock
+			for _, s := range l.Sends {
+				if types.IsEmbeddedAddress(s.ToAddress) && len(l.Recv[s.Hash]) > 0 && !l.Pooled[s.Hash] {
+					cands = append(cands, s)
+				}
+			}
+			if len(cands) == 0 {
+				return
+			}
+			sortBlocks(cands)
+			s := cands[c.Pick("replay.idx", len(cands))]
+			var rb *nom.AccountBlock
+			func() {
+				defer func() { _ = recover() }()
+				if ex, err := h.A.Sup.GenerateAutoReceive(s); err == nil && ex != nil && ex.Transaction != nil {
+					rb = ex.Transaction.Block
+				}
+			}()
+			c.Note("replayed contract receive of %s (to %s): regenerated=%v", s.Hash.String()[:8], sim.ContractNames[s.ToAddress], rb != nil)
+			if rb == nil {
+				rejectedCompeting++
+				return
+			}
+			if wb, err := sim.WireBlocks([]*nom.AccountBlock{rb}); err == nil {
+				_ = h.A.Bridge.AddAccountBlocks(wb)
+			}
+		}
 		acts := histActions(h)
+		acts["replayContractReceive"] = replay
 		acts["double"] = double
 		acts["fork"] = fork
 		acts["receive2"] = h.ActReceive
@@ -252,4 +287,12 @@ func TestC04Reorg(t *testing.T) {
 			c04Oracle(c, cn, "reference node")
 		})
 	})
+}
+
+func sortBlocks(l []*nom.AccountBlock) {
+	for i := 1; i < len(l); i++ {
+		for j := i; j > 0 && l[j].Hash.String() < l[j-1].Hash.String(); j-- {
+			l[j], l[j-1] = l[j-1], l[j]
+		}
+	}
 }
